@@ -304,6 +304,7 @@ package message
 
 //@ func (*handler).run
 //@   requires h != nil && h.runningHandlersWg != nil && h.runningHandlersWgLock != nil && h.messagesCh != nil && h.handlerFunc != nil
+//@   requires ctx != nil && h.subscriber != nil && h.stopFn != nil && h.routersCloseCh != nil [what-the-close-watcher-needs]
 //@   requires forall i int :: 0 <= i && i < len(middlewares) ==> middlewares[i].Handler != nil
 //@   assume forall m HandlerMiddleware, f HandlerFunc :: m != nil && f != nil ==> app(m, f) != nil [ASSUMED-a-middleware-returns-a-handler]
 //@   ghost recv-nonnil h.messagesCh
